@@ -10,6 +10,8 @@ import (
 	"sort"
 	"strings"
 	"sync"
+	"syscall"
+	"time"
 )
 
 // Thorough tier extras (never the verdict about /repo):
@@ -75,6 +77,7 @@ func thoroughExtras(p *Prog, c *Check) {
 			defer wg.Done()
 			sem <- struct{}{}
 			defer func() { <-sem }()
+			defer acquireSlot()()
 			res := mutantResult{Name: j.name, Expected: "detected"}
 			if why, ok := expectedMiss[j.name]; ok {
 				res.Expected = "not decided: " + why
@@ -292,6 +295,7 @@ func refactorSelfTest(p *Prog, c *Check, self string) {
 			defer wg.Done()
 			sem <- struct{}{}
 			defer func() { <-sem }()
+			defer acquireSlot()()
 			r := res{Name: strings.TrimSuffix(filepath.Base(pt), ".diff")}
 			tmp, err := os.MkdirTemp("", "shcheck-ref-")
 			if err != nil {
@@ -342,4 +346,38 @@ func refactorSelfTest(p *Prog, c *Check, self string) {
 	c.extra["refactorings_clean"] = clean
 	c.extra["refactorings_undecided"] = undecided
 	c.extra["refactorings"] = results
+}
+
+// acquireSlot bounds the number of child analyses on the machine, not just in this process: each
+// child holds about 3 GB while it runs, and several thorough checks started at the same time would
+// otherwise multiply the per-process bound. A slot is an advisory lock on one of a fixed set of files
+// in the temp directory (created on demand; the kernel drops the lock if the holder dies). If the
+// directory cannot be used the local bound alone applies.
+func acquireSlot() func() {
+	const slots = 10
+	dir := filepath.Join(os.TempDir(), "shcheck-slots")
+	if err := os.MkdirAll(dir, 0o777); err != nil {
+		return func() {}
+	}
+	for {
+		opened := 0
+		for i := 0; i < slots; i++ {
+			f, err := os.OpenFile(filepath.Join(dir, fmt.Sprintf("slot.%d", i)), os.O_CREATE|os.O_RDWR, 0o666)
+			if err != nil {
+				continue
+			}
+			opened++
+			if syscall.Flock(int(f.Fd()), syscall.LOCK_EX|syscall.LOCK_NB) == nil {
+				return func() {
+					syscall.Flock(int(f.Fd()), syscall.LOCK_UN)
+					f.Close()
+				}
+			}
+			f.Close()
+		}
+		if opened == 0 {
+			return func() {}
+		}
+		time.Sleep(300 * time.Millisecond)
+	}
 }
